@@ -26,6 +26,8 @@
  *                                                    note = notification items (shm: bytes on the socket,
  *                                                    sock: increments of the shared "sent" counter)
  *   Kick <p> <n>                                     n more notification items
+ *   RewriteNext <p> <word> [<fill>]                  shm: while msg_process runs on this peer's next request the peer
+ *                                                    overwrites the chunk's length word in the shared ring with <word>
  *   Close <p> <how>                                  0 = the peer dies (descriptors closed, mappings dropped)
  *                                                    1 = it closes the way the client library does
  *   GConnect <p> <mms>  GSend <p> <len>  GRecv <p>  GClose <p>    a well-behaved client (qb_ipcc_* API)
@@ -256,6 +258,8 @@ static int32_t s_closed(qb_ipcs_connection_t *c) { vt_ev("Closed"); vt_i(peer_of
 static void s_destroyed(qb_ipcs_connection_t *c) { vt_ev("Destroyed"); vt_i(peer_of(c)); vt_res(); vt_end(); }
 
 static volatile unsigned char sink;
+static int rw_armed, rw_peer, rw_fill;
+static uint32_t rw_value;
 static int32_t s_msg(qb_ipcs_connection_t *c, void *data, size_t size)
 {
 	int p = peer_of(c);
@@ -284,6 +288,20 @@ static int32_t s_msg(qb_ipcs_connection_t *c, void *data, size_t size)
 	}
 	sink = acc;
 	vt_ev("MsgRead"); vt_i(p); vt_res(); vt_i(nvalid); vt_end();
+	if (rw_armed && rw_peer == p && c->service->type == QB_IPC_SHM) {
+		/* the client owns the other mapping of this ring: while the server is busy with the request it overwrites
+		 * the length word of that very chunk (what the server validated is not what it will find when it releases it) */
+		struct qb_ringbuffer_s *rb = c->request.u.shm.rb;
+		uint32_t rp = rb->shared_hdr->read_pt;
+		if (rw_fill) {
+			/* ... and makes every other word of the ring look like the mark of a committed chunk, so that whatever
+			 * position the server computes next passes its first test */
+			for (uint32_t w = 0; w < rb->shared_hdr->word_size; w++) rb->shared_data[w] = 0xA1A1A1A1u;
+		}
+		rb->shared_data[rp] = rw_value;
+		rw_armed = 0;
+		vt_ev("Rewrite"); vt_i(p); vt_i((long long)(int32_t)rw_value); vt_res(); vt_end();
+	}
 	if (p > 0 && p < MAXPEER && peers[p].good) {
 		struct qb_ipc_response_header r;
 		memset(&r, 0, sizeof(r));
@@ -479,6 +497,11 @@ static void run_history(char **lines, int nlines)
 				if (rc >= 0) { infl_buf = sendbuf; infl_len = actual; infl_peer = p; }
 			}
 			vt_ev("Send"); vt_i(p); vt_i(seq); vt_i(actual); vt_i(id); vt_i(hsz); vt_i(note); vt_res(); vt_i(rc); vt_end();
+		} else if (!strcmp(op, "RewriteNext") && P) {
+			/* arms the rewrite of the length word of this peer's next request while msg_process runs on it (no event of
+			 * its own: the Rewrite event is recorded when it happens) */
+			rw_armed = 1; rw_peer = p; rw_value = (uint32_t)vt_argi(&L, 2); rw_fill = L.n > 3 ? (int)vt_argi(&L, 3) : 0;
+			continue;
 		} else if (!strcmp(op, "Kick") && P) {
 			int n = (int)vt_argi(&L, 2);
 			if (P->cc && n > 0) {
